@@ -132,10 +132,89 @@ class Vpes:
                 tg = dict(t["targets"])
                 pinned[bi] = [tg.get(v, t["otherwise"])]
                 changed = True
+            # classifier calls on a constrained root (`schema.name()`, `schema.is_named()` ...): when the callee returns
+            # the same Option / bool variant on every path under the root's shape, the switch on its result is decided
+            for bi in sorted(seen):
+                if bi in pinned or bi in self.switches:
+                    continue
+                t = b.blocks[bi]["term"]
+                if t["t"] != "switch":
+                    continue
+                l = op_local(t["discr"])
+                if l is None:
+                    continue
+                val = self._classifier_value(l, sigma, seen)
+                if val is None:
+                    continue
+                tg = dict(t["targets"])
+                pinned[bi] = [tg.get(val, t["otherwise"])]
+                changed = True
             if not changed:
                 break
             seen = self._reach(sigma, pinned)
         return seen
+
+    def _classifier_value(self, l, sigma, seen):
+        """integer the switch discriminant local `l` must have, when it is (the discriminant of) the result of a local
+        classifier function applied to a constrained root and that function returns one variant only for that shape"""
+        b = self.b
+        sd = b.single_def(l)
+        via_discr = False
+        if sd and sd[2] == "assign" and sd[3]["r"] == "discr" and not sd[3]["pl"]["p"]:
+            via_discr = True
+            sd = b.single_def(sd[3]["pl"]["l"])
+        if not sd or sd[2] != "call" or sd[0] not in seen:
+            return None
+        t = sd[3]
+        names = callee_names(t["func"])
+        cal = None
+        for n in reversed(names):
+            if n in self.prog.bodies and self.prog.bodies[n].crate == self.crate and self.prog.bodies[n].kind != "Closure":
+                cal = self.prog.bodies[n]
+        if cal is None or cal.n > 120 or not t["args"] or cal.key == b.key:
+            return None
+        a0 = t["args"][0]
+        if a0.get("k") not in ("copy", "move"):
+            return None
+        r, projs = b.resolve_place(a0["pl"])
+        if r not in self.roots or [p for p in projs if p not in ("*", "&")] or (r, ()) not in sigma:
+            return None
+        cache = self.__dict__.setdefault("_clf", {})
+        sub = dict(((1, kp), v) for (rr, kp), v in sigma.items() if rr == r)
+        key = (cal.key, self.roots[r], str(sorted(sub.items())))
+        if key not in cache:
+            res = None
+            try:
+                cvp = Vpes(self.prog, cal, {1: self.roots[r]}, self.crate)
+                reg = cvp.region(sub)
+                outs = set()
+                ret = cal.ret
+                for bi in reg:
+                    for st in cal.blocks[bi]["stmts"]:
+                        if st["s"] == "assign" and st["pl"]["l"] == 0 and not st["pl"]["p"]:
+                            rv = st["rv"]
+                            if rv["r"] == "agg" and rv.get("adt") == "std::option::Option":
+                                outs.add(("opt", rv["variant"]))
+                            elif rv["r"] == "use" and rv["o"].get("k") == "const" and "int" in rv["o"] and ret == "bool":
+                                outs.add(("bool", rv["o"]["int"]))
+                            else:
+                                outs.add(("other", None))
+                    tt = cal.blocks[bi]["term"]
+                    if tt["t"] == "call" and tt["dest"]["l"] == 0:
+                        outs.add(("other", None))
+                if len(outs) == 1:
+                    res = next(iter(outs))
+            except (KeyError, RuntimeError):
+                res = None
+            cache[key] = res
+        res = cache[key]
+        if res is None or res[0] == "other":
+            return None
+        if res[0] == "opt" and via_discr:
+            return 0 if res[1] == "None" else 1
+        if res[0] == "bool" and not via_discr:
+            return res[1]
+        return None
 
     def nested_keys_in(self, region, sigma):
         """keys discriminated inside the region that sigma does not fix"""
